@@ -455,7 +455,7 @@ class ChunkSeq(Grid):
                 self.nb = cached
             elif isinstance(c, int) and c == 1:
                 self.nb = _ite(tz(n) == 0, 1, n)
-            elif sym.cur().entails(tz(n) <= 1):
+            elif sym.cur().quick_entails(tz(n) <= 1):
                 return 1  # on this path the extent is 0 or 1: a single block
             else:
                 ctx = sym.cur()
